@@ -40,7 +40,10 @@ CLAIM = {
             "releasing a holder/closing signature writes channel_closed=true and passes Ok(persist) before its Ok "
             "return, and channel_closed is never written false; (R2.3) the counter advance in "
             "revoke_previous_holder_commitment is unreachable when channel_closed; (R2.4) SimpleValidator::"
-            "validate_holder_commitment_tx refuses revoked numbers and a new state on a closed channel. Does not "
+            "validate_holder_commitment_tx refuses revoked numbers and a new state on a closed channel; (R2.5) the other "
+            "half of the disjointness argument (signed: n = next-1; disclosed: n+2 <= next): only the four named functions "
+            "reach LDK's secret release and it is unreachable when n+2 > next_holder_commit_num, whatever else is staged "
+            "(same obligations as C01 R1.1/R1.2). Does not "
             "decide secret-derivation arithmetic or restart (C11).",
     "note": "non-permissive policy; rustc MIR; LDK semantics by name; single live object per typed path",
     "technique": "static analysis: MIR who-may-call + guard-scenario entailment with callee look-through + must-pass-through",
@@ -55,6 +58,7 @@ def run(ctx):
     r22(ctx)
     r23(ctx)
     r24(ctx)
+    r25(ctx)
 
 
 def r21(ctx):
@@ -188,3 +192,12 @@ def r24(ctx):
                                         "EnforcementState.channel_closed"], succ,
                        key=f"{b.name}/refuse-new-when-closed",
                        what="validate_holder_commitment_tx accepts a new holder commitment after the channel was closed")
+
+
+def r25(ctx):
+    """C02 rests on two disjoint windows: a holder signature is released for n = next_holder_commit_num - 1 only (R2.1),
+    a revocation secret for n + 2 <= next_holder_commit_num only.  The second bound is C01 R1.1/R1.2; it is evaluated here
+    too because relaxing it (e.g. by one while a successor is staged) makes the current, signable commitment revocable."""
+    from rules import C01 as _c01
+    _c01.r11(ctx, rid="R2.5")
+    _c01.r12(ctx, rid="R2.5")
